@@ -8,6 +8,12 @@
                    both in registration order (SubApp::with_route / with_websocket_route push).
    Patterns, Host values and request targets are sequences of one-character symbols so that Match (module
    GlobMatch = spec/glob) applies; STAR is `*`, QM is `?`.
+   What the property says about spelling: patterns match LITERALLY. A symbol matches only itself, so `A.X` is
+   not matched by the pattern `a.x` and `/A/b` not by `/a/*` (no case folding of Host values or paths), a port
+   is part of the Host value, an EMPTY Host value (`Host:` with nothing behind it) is a value like any other
+   (matched by `**` and by the empty pattern, not by `*.x`) and is not the same as an absent header, and the
+   empty pattern matches exactly the empty text. The NAME of the header is not part of the value: `host:`,
+   `HOST:` and `hOsT:` carry the same Host value (the harness spells it in every case).
 
    Two descriptions of dispatch:
    1. Route / WsRoute - the property's sentence as a definition (first matching host sub-app, first matching
@@ -30,11 +36,15 @@
      HostEquality            host patterns are compared for equality (no wildcard)
      HostIgnoresPort         the Host value is cut at `:` before matching (DESIGN 5a: it is matched literally)
      WsUsesHttpRoutes        WebSocket upgrades are dispatched over the HTTP routes
-     NoSavedTextPos          the matcher before repair 6b88842 (spec/glob deviation, inherited) *)
+     HostCaseFolded          Host value and host pattern are compared after case folding
+     PathCaseFolded          path and route pattern are compared after case folding
+     EmptyHostIsAbsent       an empty Host value is treated like a missing Host header
+     NoSavedTextPos          the matcher before its repair (spec/glob deviation, inherited) *)
 EXTENDS GlobMatch, FiniteSets, TLC
 
 CONSTANTS QM,          \* the symbol `?`
           COLON,       \* the symbol `:`
+          Fold(_),     \* case folding of one symbol (only the *CaseFolded deviations use it)
           Dev,
           Apps,        \* set of apps explored (MC: built by MC_Routing with the registration operators below)
           Reqs         \* set of requests explored
@@ -114,8 +124,12 @@ HostValue == IF "HostIgnoresPort" \in Dev
              THEN LET c == FirstIdx(Len(req.host), LAMBDA i : req.host[i] = COLON)
                   IN IF c = 0 THEN req.host ELSE SubSeq(req.host, 1, c - 1)
              ELSE req.host
+FoldSeq(t) == [i \in DOMAIN t |-> Fold(t[i])]
 HostMatches(i) == IF "HostEquality" \in Dev THEN app.hosts[i].host = HostValue
+                  ELSE IF "HostCaseFolded" \in Dev THEN M(FoldSeq(app.hosts[i].host), FoldSeq(HostValue))
                   ELSE M(app.hosts[i].host, HostValue)
+RouteMatches(p) == IF "PathCaseFolded" \in Dev THEN M(FoldSeq(p), FoldSeq(Uri)) ELSE M(p, Uri)
+HostPresent == IF "EmptyHostIsAbsent" \in Dev THEN req.hostp /\ req.host # <<>> ELSE req.hostp
 RoutesOf(s) == IF "WsUsesHttpRoutes" \in Dev THEN s.http ELSE Routes(s, req.kind)
 
 \* cursors of `find` (`rfind` under the Last* deviations)
@@ -133,12 +147,12 @@ GotoDefault == /\ pc' = "default" /\ ri' = Start(Len(RoutesOf(app.def)), LastR)
 Finish(r) == /\ pc' = "done" /\ res' = r /\ UNCHANGED <<app, req, hi, ri>>
 
 \* `if let Some(host) = request.headers.get(Host)` fails: straight to the default sub-app
-HostAbsent == /\ pc = "host" /\ ~req.hostp
+HostAbsent == /\ pc = "host" /\ ~HostPresent
               /\ GotoDefault
 
 \* one step of subapps.iter().find(|s| wildcard_match(&s.host, host))
 HostStep ==
-  /\ pc = "host" /\ req.hostp
+  /\ pc = "host" /\ HostPresent
   /\ IF Exhausted(hi, Len(app.hosts), LastH) THEN GotoDefault
      ELSE IF HostMatches(hi)
           THEN /\ pc' = "routes" /\ ri' = Start(Len(RoutesOf(app.hosts[hi])), LastR)
@@ -155,7 +169,7 @@ RouteStep ==
           THEN /\ pc' = "host" /\ hi' = Advance(hi, LastH) /\ UNCHANGED <<app, req, ri, res>>
           ELSE IF "NoDefaultAfterHostMatch" \in Dev THEN Finish(Miss)
           ELSE GotoDefault
-     ELSE IF M(rs[ri], Uri) THEN Finish(Hit(hi, ri))
+     ELSE IF RouteMatches(rs[ri]) THEN Finish(Hit(hi, ri))
      ELSE /\ ri' = Advance(ri, LastR) /\ UNCHANGED <<app, req, pc, hi, res>>
 
 \* one step of default_subapp.routes.iter().find(..); exhausted: 404 / the stream is dropped
@@ -163,7 +177,7 @@ DefaultStep ==
   /\ pc = "default"
   /\ LET rs == RoutesOf(app.def) IN
      IF Exhausted(ri, Len(rs), LastR) THEN Finish(Miss)
-     ELSE IF M(rs[ri], Uri) THEN Finish(Hit(0, ri))
+     ELSE IF RouteMatches(rs[ri]) THEN Finish(Hit(0, ri))
      ELSE /\ ri' = Advance(ri, LastR) /\ UNCHANGED <<app, req, pc, hi, res>>
 
 Next == HostAbsent \/ HostStep \/ RouteStep \/ DefaultStep
@@ -232,5 +246,10 @@ KindsSeparate ==
   Done => \A p \in PatsOf(app) : \A s \in 0..Len(app.hosts) :
              Expected(AppendRoute(app, s, IF req.kind = "ws" THEN "http" ELSE "ws", p), req) = res
 
-Independence == RemoveNonChosen /\ RemoveOtherHost /\ AppendStable /\ AppendHostStable /\ KindsSeparate
+\* with_default_subapp replaces the default sub-app: whatever was registered on the app before (here a catch-all
+\* of each kind) has no influence any more
+DefaultReplaced ==
+  Done => Expected(WithDefaultSubapp(WithWebsocketHandler(WithRoute(app, <<STAR>>)), app.def), req) = res
+
+Independence == RemoveNonChosen /\ RemoveOtherHost /\ AppendStable /\ AppendHostStable /\ KindsSeparate /\ DefaultReplaced
 =============================================================================
